@@ -5,6 +5,7 @@ import (
 	"database/sql"
 	"database/sql/driver"
 	"fmt"
+	"github.com/go-sql-driver/mysql"
 	"io"
 	"regexp"
 	"sort"
@@ -48,14 +49,53 @@ func (d *SQLDB) Open() *sql.DB {
 
 type sqlConnector struct{ d *SQLDB }
 
-func (c sqlConnector) Connect(context.Context) (driver.Conn, error) { return &sqlConn{c.d}, nil }
+func (c sqlConnector) Connect(context.Context) (driver.Conn, error) { return &sqlConn{d: c.d}, nil }
 func (c sqlConnector) Driver() driver.Driver                        { return sqlDriver{c.d} }
 
 type sqlDriver struct{ d *SQLDB }
 
-func (s sqlDriver) Open(string) (driver.Conn, error) { return &sqlConn{s.d}, nil }
+func (s sqlDriver) Open(string) (driver.Conn, error) { return &sqlConn{d: s.d}, nil }
 
-type sqlConn struct{ d *SQLDB }
+type sqlConn struct {
+	d *SQLDB
+	// loc: the connection was opened from a go-sql-driver/mysql DSN; that driver renders every
+	// time.Time argument as the wall clock of the DSN's loc (UTC by default) and the server reads the
+	// literal in its own time zone (UTC here)
+	loc *time.Location
+}
+
+// ts is the TIMESTAMP the server stores / compares for a time argument sent over this connection.
+func (c *sqlConn) ts(v driver.Value) (int64, error) {
+	if tv, ok := v.(time.Time); ok && c.loc != nil {
+		w := tv.In(c.loc)
+		v = time.Date(w.Year(), w.Month(), w.Day(), w.Hour(), w.Minute(), w.Second(), w.Nanosecond(), time.UTC)
+	}
+	return asTimestamp(v)
+}
+
+// MySQLDriverName is a registered database/sql driver name that stands for go-sql-driver/mysql in front
+// of CurrentMySQL: it parses the DSN the way that driver does and honours its loc parameter.
+const MySQLDriverName = "verif-mysql"
+
+// CurrentMySQL is the database behind connections opened through MySQLDriverName.
+var CurrentMySQL *SQLDB
+
+type mysqlNamedDriver struct{}
+
+func (mysqlNamedDriver) Open(dsn string) (driver.Conn, error) {
+	cfg, err := mysql.ParseDSN(dsn)
+	if err != nil {
+		return nil, err
+	}
+	if CurrentMySQL == nil {
+		return nil, fmt.Errorf("dial tcp %s: connection refused", cfg.Addr)
+	}
+	return &sqlConn{d: CurrentMySQL, loc: cfg.Loc}, nil
+}
+
+func init() { sql.Register(MySQLDriverName, mysqlNamedDriver{}) }
+
+var reSetVar = regexp.MustCompile(`(?i)^\s*set\s+\w+\s*=\s*\?\s*$`)
 
 func (c *sqlConn) Prepare(q string) (driver.Stmt, error) {
 	return nil, fmt.Errorf("fake sql: Prepare not supported")
@@ -181,7 +221,7 @@ func (c *sqlConn) QueryContext(_ context.Context, q string, args []driver.NamedV
 		if err != nil {
 			return nil, err
 		}
-		created, err := asTimestamp(cv)
+		created, err := c.ts(cv)
 		if err != nil {
 			return nil, err
 		}
@@ -237,6 +277,9 @@ func (c *sqlConn) ExecContext(_ context.Context, q string, args []driver.NamedVa
 	if f == "before" {
 		return nil, d.injected()
 	}
+	if reSetVar.MatchString(q) && d.Dialect == "mysql" && len(args) == 1 {
+		return driver.RowsAffected(0), nil // a session variable
+	}
 	m := reInsert.FindStringSubmatch(q)
 	if m == nil {
 		panic(HarnessError{"sql statement not understood by the fake: " + q})
@@ -278,7 +321,7 @@ func (c *sqlConn) ExecContext(_ context.Context, q string, args []driver.NamedVa
 	if len(id) > 255 {
 		return nil, fmt.Errorf("Error 1406 (22001): Data too long for column 'id'")
 	}
-	created, err := asTimestamp(vals[1])
+	created, err := c.ts(vals[1])
 	if err != nil {
 		return nil, err
 	}
